@@ -170,6 +170,14 @@ def _replay(v):
                 g2 = parsed(label, cm.parser, octs, chk2, None)
                 if g2 is not None:
                     same(label + " produce(parse)", CM.produce(g2))
+            for x in v.get("failrp", []):
+                want = bytes(bytearray(x["b"]))
+                mk = {"service": 0xDB if v["large"] else 0xD4, "status": 1, "status_ext": {"size": 1, "data": [785]},
+                      "forward_open": dict(ids, remaining_path_size=x["rps"])}
+                same("forward open failure with remaining path size %d produce(fields)" % x["rps"], CM.produce(W.dd(mk)))
+                g4 = parsed("forward open failure with remaining path size %d" % x["rps"], cm.parser, x["b"], {"status": 1, "forward_open": dict(ids, remaining_path_size=x["rps"])}, None)
+                if g4 is not None:
+                    same("forward open failure with remaining path size produce(parse)", CM.produce(g4))
             # replies carrying application reply data of 1..4 octets (an odd length is padded to a whole word)
             for a in v["apps"][:: (1 if f["serial"] == 1 else 3)]:
                 app = list(a["app"])
